@@ -18,7 +18,9 @@ META = {
     'on the global indices, column 0 = time, 1 = space (R-accumulate); '
     'serial and pool paths call the same method with the same flag through '
     'an order-preserving pool created after the globals are set '
-    '(R-samecall, R-ordered, R-handover); the four estimator orders go '
+    '(R-samecall, R-ordered, R-handover); the on-disk cache of the '
+    'indicators is keyed on curve and element list through a lossless '
+    'element repr (R-cachekey, R-cacheio); the four estimator orders go '
     'to the rules they are named for (R-orders) and the seminorm '
     'routines have the structure certified under C14.',
     'checker_cmd': 'python3-vt -m stbem_static C09 --tier <tier>',
@@ -40,6 +42,9 @@ def run(prog, report, tier):
     normsrules.check_singular_measure(prog, report)
     effects.check_pools(prog, report, only={effects.EE})
     effects.check_samecall(prog, report)
+    # the two indicator arrays are cached on disk under a digest of the
+    # curve and the element list
+    effects.check_cache(prog, report, estimator=True)
     report.floors.pop('R-ordered', None)
     report.floors.pop('R-handover', None)
     report.floor('R-ordered', 6)
